@@ -264,7 +264,7 @@ def check_history(ctx, case):
             if got == pred:
                 key = "vtimezone-after-use" if pos == "after" else "tzcache-first-definition-wins"
             ctx.fail("history-offset", observed=(idx, tzid, pos, got), expected=off, key=key, detail=repr(cals))
-            return
+            continue        # later calendars of the history are still checked
         ctx.count("history-events-checked")
 
 
